@@ -4,6 +4,7 @@
 package cache
 
 import (
+	"net/netip"
 	"time"
 
 	"github.com/miekg/dns"
@@ -127,5 +128,67 @@ func VerifC13_LookupPartition() {
 	} else {
 		vAssert("question-hit-is-the-same-question", hit.Kind == FailureKindQuestion && len(el) == len(ql) && c13pSuffix(el, ql))
 		vAssert("question-hit-same-type-class-cd", e.question.Question.Qtype == key.Question.Qtype && e.question.Question.Qclass == key.Question.Qclass && e.question.CD == key.CD)
+	}
+}
+
+// VerifC13_LookupWirePartition: the byte path's failure lookup obeys the same
+// partition as the decoded one - through a colliding key it hits a question
+// failure only for the same name (ASCII case aside), type, class and CD and
+// never an audience-scoped one, a zone failure only for a label-wise
+// ancestor-or-self in the same class, and never an expired entry.
+//
+//verif:entry tier=quick,thorough
+//verif:also C03 C05
+//verif:expect wire-only-active-entries-hit wire-zone-hit-is-label-wise-ancestor wire-question-hit-is-the-same-question wire-scoped-failure-never-served-on-the-byte-path
+//verif:bound as VerifC13_LookupPartition, with the probe given as an uncompressed wire name and the stored question failure optionally scoped to 192.0.2.0/24
+func VerifC13_LookupWirePartition() {
+	c := &FailureCache{entries: new(internalcache.Cache), initialTTL: 5e9, maxTTL: 3e11}
+	clock := vNow()
+	c.now = func() time.Time { return clock }
+	nq, ns := 1, 2
+	if vTier() > 0 {
+		nq, ns = len(c13pShapes), 4
+	}
+	ql, _ := c13pName("q", c13pShapes[vChoice("q.shape", nq)])
+	var wire []byte
+	for _, l := range ql {
+		wire = append(wire, byte(len(l)))
+		wire = append(wire, l...)
+	}
+	wire = append(wire, 0)
+	qtype, qclass, cd := vU16("q.qtype"), vU16("q.qclass"), vBool("q.cd")
+	e := &failureEntry{streak: 1, retryAfter: vTime("retryAfter")}
+	var el [][]byte
+	isZone := vChoice("stored.kind", 2) == 1
+	scoped := false
+	if isZone {
+		var zname string
+		el, zname = c13pName("z", c13pStored[vChoice("z.shape", ns)])
+		e.kind = FailureKindZone
+		e.zone = normalizeFailureZoneKey(FailureZoneKey{Zone: zname, Qclass: vU16("z.qclass")})
+	} else {
+		var sname string
+		el, sname = c13pName("s", c13pShapes[vChoice("s.shape", ns)])
+		e.kind = FailureKindQuestion
+		k := FailureQuestionKey{Question: dns.Question{Name: sname, Qtype: vU16("s.qtype"), Qclass: vU16("s.qclass")}, CD: vBool("s.cd")}
+		if vBool("s.scoped") {
+			k.Scope = netip.MustParsePrefix("192.0.2.0/24")
+			scoped = true
+		}
+		e.question = normalizeFailureQuestionKey(k)
+	}
+	c13pHeld = e
+	hit, ok := c.LookupWire(wire, qtype, qclass, cd)
+	if !ok {
+		vReach("wire-miss")
+		return
+	}
+	vAssert("wire-only-active-entries-hit", clock.Before(e.retryAfter))
+	if isZone {
+		vAssert("wire-zone-hit-is-label-wise-ancestor", hit.Kind == FailureKindZone && c13pSuffix(el, ql) && e.zone.Qclass == qclass)
+	} else {
+		vAssert("wire-scoped-failure-never-served-on-the-byte-path", !scoped)
+		vAssert("wire-question-hit-is-the-same-question", hit.Kind == FailureKindQuestion && len(el) == len(ql) && c13pSuffix(el, ql) &&
+			e.question.Question.Qtype == qtype && e.question.Question.Qclass == qclass && e.question.CD == cd)
 	}
 }
